@@ -176,8 +176,15 @@ impl CalibrationExpansion {
     /// This is to be used when the given index is removed from the target program
     /// in the process of calibration expansion (for example, a `DECLARE`).
     pub(crate) fn remove_target_index(&mut self, target_index: InstructionIndex) {
+        // Nested entries are relative to the start of this range, so they are affected only
+        // if the target index falls within the range as it stands before adjustment.
+        let target_within_expansion = self
+            .range
+            .contains(&target_index)
+            .then(|| target_index.0 - self.range.start.0);
+
         // Adjust the start of the range if the target index is before the range
-        if self.range.start >= target_index {
+        if self.range.start > target_index {
             self.range.start = self.range.start.map(|v| v.saturating_sub(1));
         }
 
@@ -189,7 +196,7 @@ impl CalibrationExpansion {
         // Then walk through all entries expanded for this calibration and remove the
         // index as well. This is needed when a recursively-expanded instruction contains
         // an instruction which is excised from the overall calibration.
-        if let Some(target_within_expansion) = target_index.0.checked_sub(self.range.start.0) {
+        if let Some(target_within_expansion) = target_within_expansion {
             self.expansions.entries.retain_mut(
                 |entry: &mut SourceMapEntry<
                     InstructionIndex,
